@@ -2,7 +2,7 @@
 """Regenerates MANIFEST.json from the table below (kept in one place so it stays valid)."""
 import json, subprocess
 ids=[json.loads(l)['id'] for l in open('/verif/properties.jsonl')]
-hook_commits=["4e5c854"]
+hook_commits=["4e5c854","1934888","6278fb2"]
 CHECKS={}
 def add(pid, cat, text, note, technique, ref):
     CHECKS[pid]=dict(property_id=pid, quick_cmd=f"./check {pid} quick", thorough_cmd=f"./check {pid} thorough",
